@@ -1,5 +1,5 @@
 #!/bin/bash
-# usage: eval_mutant.sh <name> <patch.diff> <demo_test.go> <check id>...
+# usage: [DEMO_DIR=db|v2] eval_mutant.sh <name> <patch.diff> <demo_test.go> <check id>...
 # Confirms the mutant in a scratch worktree (demo fails with it, passes without), then runs the given
 # quick checks against that scratch worktree (VERIF_REPO) and prints which of them detect it.
 set -u
@@ -11,12 +11,13 @@ cp /repo/cmd/legacydump/legacydump "$W/cmd/legacydump/" 2>/dev/null
 trap 'git -C /repo worktree remove --force "$W"; rm -rf "$W.out"' EXIT
 cd "$W"
 tn=$(grep -o 'func Test[A-Za-z0-9_]*' "$demo" | head -1 | sed 's/func //')
-cp "$demo" zz_demo_test.go
-go test -vet=off -count=1 -run "^${tn}\$" . > "$W.base.out" 2>&1; base=$?
+D="${DEMO_DIR:-.}"
+cp "$demo" "$D/zz_demo_test.go"
+(cd "$D" && go test -vet=off -count=1 -run "^${tn}\$" .) > "$W.base.out" 2>&1; base=$?
 if ! git apply "$patch"; then echo "RESULT $name NOT-APPLICABLE"; exit 1; fi
-if ! go build ./... ; then echo "RESULT $name NO-BUILD"; exit 1; fi
-go test -vet=off -count=1 -run "^${tn}\$" . > "$W.mut.out" 2>&1; mut=$?
-rm -f zz_demo_test.go
+if ! (cd "$D" && go build ./... 2>/dev/null) ; then echo "RESULT $name NO-BUILD"; exit 1; fi
+(cd "$D" && go test -vet=off -count=1 -run "^${tn}\$" .) > "$W.mut.out" 2>&1; mut=$?
+rm -f "$D/zz_demo_test.go"
 conf="NOT-CONFIRMED(base=$base,mut=$mut)"; [ $base -eq 0 ] && [ $mut -ne 0 ] && conf=CONFIRMED
 det=""; miss=""
 for c in "$@"; do
